@@ -174,6 +174,19 @@ CHECKS["C13"] = dict(
     technique="Coq proof over translator-generated callback schemas + byte-level model/implementation correspondence",
 )
 
+CHECKS["C20"] = dict(
+    category="other",
+    text=("PARTIAL by nature. Proved in Coq: the five dispatch rules of ThreadsafeProxy over all 16 input combinations and, over a queue "
+          "model of the owner's loop, that bodies are only ever executed by the owner, results/exceptions of coroutine methods are relayed, "
+          "plain methods are queued and must return nothing, closed loops drop without executing. NOT provable in Coq: which OS thread "
+          "runs a body and what happens while the owner loop is stopping -- those are explored with real threads (thread identity recorded "
+          "inside the wrapped method) for every method kind x caller loop x owner state x burst size; running/closed outcomes are also "
+          "compared with the model."),
+    design_ref="DESIGN.md section 6 C20",
+    technique="Coq proof of the dispatch/relay logic + runtime exploration with real threads (partial)",
+    note=TB + "; thread scheduling is not controlled, the runtime half has exploration-level assurance only",
+)
+
 NOT_YET = {}
 
 
